@@ -15,6 +15,7 @@ import LW.Spec.Frag
 import LW.Known
 import LW.Driver.AppVerdict
 import LW.Driver.BackendVerdict
+import LW.Driver.JSVerdict
 namespace LW.Driver
 open LW LW.Canon
 
@@ -615,7 +616,8 @@ def verdicts (st : DState) (op : String) (args : List String) (goRes : String) :
           | _ => [])
        | _, _, _ => [])
     | _, _ => if AppOps.isAppOp op then AppVerdict.verdicts E op args res
-              else if BackendOps.isBackendOp op then BackendVerdict.verdicts E op args res else []
+              else if BackendOps.isBackendOp op then BackendVerdict.verdicts E op args res
+              else if JSOps.isJSOp op then JSVerdict.verdicts E op args res else []
 
 def verdict (prop : String) (st : DState) (op : String) (args : List String) (goRes : String) : String :=
   let vs := (verdicts st op args goRes).filter (fun (p, v) => (p == prop || p == "*") && v != "ok")
